@@ -4,7 +4,7 @@
    calls of $BUint methods that are not re-translated are calls of the hand-written model (qualified: Mul.U_overflowing_mul ..). *)
 From Bnum Require Import Base Prim.
 From Bnum.Model Require Import DigitPrims LoopPrims Core Imp.
-From Bnum.Model Require Mul.
+From Bnum.Model Require Mul Div AddSub.
 From Bnum.Generated Require Import DigitGen.
 
 Module Loops.
@@ -973,5 +973,115 @@ Definition wrapping_pow (w N : Z) (fuel : nat) (self : list Z) (pow : Z) : res (
     | Returned t4' => Done t4'
     end
   ).
+
+(* src/buint/mod.rs: fn bits *)
+Definition bits (w N : Z) (fuel : nat) (self : list Z) : res (Z) :=
+  t1' <- leading_zeros w N fuel self ;;
+  t2' <- usub (w * N) t1' ;;
+  Done t2'.
+
+(* src/buint/checked.rs: fn checked_ilog2 *)
+Definition checked_ilog2 (w N : Z) (fuel : nat) (self : list Z) : res (option Z) :=
+  t1' <- bits w N fuel self ;;
+  Done (ix_checked_sub t1' 1).
+
+(* src/buint/checked.rs: fn iilog *)
+Fixpoint iilog (dbg : bool) (w N : Z) (fuel : nat) (m : Z) (b : list Z) (k : list Z) {struct fuel} : res (Z * list Z) :=
+  match fuel with
+  | O => NoFuel
+  | S fuel' =>
+  if (cmp_gt (ucmp b k)) then (
+    Done (m, k)
+  ) else (
+    t1' <- eshl m 1 ;;
+    t2' <- of_outcome (Mul.U_mul dbg w b b) ;;
+    t3' <- iilog dbg w N fuel' t1' t2' (fst (Div.U_div_rem_unchecked w k b)) ;;
+    let '(new, q) := t3' in
+    if (cmp_gt (ucmp b q)) then (
+      Done (new, q)
+    ) else (
+      t4' <- of_outcome (Div.U_div w q b) ;;
+      Done ((new + m), t4')
+    )
+  )
+  end.
+
+(* src/buint/checked.rs: fn checked_ilog10 *)
+Definition checked_ilog10 (dbg : bool) (w N : Z) (fuel : nat) (self : list Z) : res (option Z) :=
+  t1' <- is_zero w N fuel self ;;
+  if t1' then (
+    Done None
+  ) else (
+    t2' <- from_digit w N fuel 10 ;;
+    if (cmp_gt (ucmp t2' self)) then (
+      Done (Some 0)
+    ) else (
+      t3' <- from_digit w N fuel 10 ;;
+      t4' <- div_rem_digit w N fuel self 10 ;;
+      t5' <- iilog dbg w N fuel 1 t3' (fst t4') ;;
+      Done (Some (fst t5'))
+    )
+  ).
+
+(* src/buint/checked.rs: fn checked_ilog *)
+Definition checked_ilog (dbg : bool) (w N : Z) (fuel : nat) (self : list Z) (base : list Z) : res (option Z) :=
+  t1' <- from_digit w N fuel 2 ;;
+  t2' <- cmp w N fuel base t1' ;;
+  match t2' with
+  | Lt => (
+      Done None
+    )
+  | Eq => (
+      t3' <- checked_ilog2 w N fuel self ;;
+      Done t3'
+    )
+  | Gt => (
+      t4' <- is_zero w N fuel self ;;
+      if t4' then (
+        Done None
+      ) else (
+        if (cmp_gt (ucmp base self)) then (
+          Done (Some 0)
+        ) else (
+          t5' <- of_outcome (Div.U_div w self base) ;;
+          t6' <- iilog dbg w N fuel 1 base t5' ;;
+          Done (Some (fst t6'))
+        )
+      )
+    )
+  end.
+
+(* src/buint/checked.rs: fn checked_next_power_of_two *)
+Definition checked_next_power_of_two (w N : Z) (fuel : nat) (self : list Z) : res (option (list Z)) :=
+  t1' <- is_power_of_two w N fuel self ;;
+  if t1' then (
+    Done (Some self)
+  ) else (
+    t2' <- bits w N fuel self ;;
+    let bits := t2' in
+    if (bits =? (w * N)) then (
+      Done None
+    ) else (
+      t3' <- power_of_two w N fuel bits ;;
+      Done (Some t3')
+    )
+  ).
+
+(* src/buint/checked.rs: fn checked_next_multiple_of *)
+Definition checked_next_multiple_of (dbg : bool) (w N : Z) (fuel : nat) (self : list Z) (rhs : list Z) : res (option (list Z)) :=
+  match (Div.U_checked_rem w self rhs) with
+  | Some rem => (
+      t1' <- is_zero w N fuel rem ;;
+      if t1' then (
+        Done (Some self)
+      ) else (
+        t2' <- of_outcome (AddSub.U_sub dbg w rhs rem) ;;
+        Done (AddSub.U_checked_add w self t2')
+      )
+    )
+  | None => (
+      Done None
+    )
+  end.
 
 End Loops.
